@@ -14,7 +14,7 @@ from vpkit import common, zoo
 
 ID = "C15"
 N = {"quick": 150, "thorough": 4000}
-BUDGET = {"quick": 240.0, "thorough": 1500.0}
+BUDGET = {"quick": 240.0, "thorough": 700.0}
 RULE = ("case = simplified single-rooted input (simulated, tsinfer-inferred with polytomies, with "
         "samples isolated over random intervals); distinct by topology hash; non-trivial = >=2 trees "
         "or >=2 distinct total-sample counts T; every (node,T,k) cell and every node's mixture "
